@@ -1,6 +1,45 @@
-(* Props/C06.v -- placeholder until the theorems are stated; see Pwl/Cache.v *)
-From AT Require Import Num Vec Aff Farkas FM Equiv PTree Cache.
-Theorem C06_mirror_points_sound : forall nus eps rs p, Forall (fun nu => 0 < nu) nus -> 0 <= eps -> length nus = length rs ->
-  Forall (fun nr => accept_row (fst nr) eps (snd nr) p) (combine nus rs) -> in_rows rs p.
-Proof. exact mirror_points_sound. Qed.
-Print Assumptions C06_mirror_points_sound.
+(* Props/C06.v -- C06: infeasible-path elimination is effective and idempotent.  Property theorems only.
+   Proved in the exact-arithmetic idealisation (containment tolerance 0; an oracle that is exact on the closed
+   path polytopes of the tree: Infeasible <-> empty, Unbounded / Optimal w only for non-empty polytopes with w
+   inside, never Error).  The tolerance gap of the real code (1e-8 containment, minilp's 1e-8) is covered per
+   instance by the certified region checks of the runner (regions relaxed by tau).
+   Input (okc_kids): every decision has both branches; cached states below the root are Indeterminate or sound
+   feasible ones, uniformly per sibling pair (fresh trees, results of earlier runs, compositions of those).
+
+   The sentence "for a distilled network the number of terminals lies between the number of full-dimensional and
+   the number of non-empty closed activation regions" is NOT proved in general (C06_counting: per instance only,
+   by certified enumeration in the runner); what is proved is its ingredient: every remaining terminal has a
+   non-empty closed region (C06_effective, through eff). *)
+From AT Require Import Num Vec Aff PTree Cells Abs Cache Elim ElimEval ElimCache ElimEff ElimExample.
+
+(* eff q r: node r below the root has a determined feasible state, a non-empty closed path polytope q, and -- if it
+   is a decision -- both branches, recursively.  eff_root: the same for every node below the root (the root itself
+   may be left with a single branch). *)
+Theorem C06_effective_partial : forall o t, (forall r, is_path [] t r -> oexact_at o r) -> mir_sound o 0 ->
+  c_exists t = true -> okc_kids [] t -> st_wit 0 [] (c_state t) ->
+  eff_root [] (fst (elim o 0 t)).
+Proof. exact elim_eff. Qed.
+(* what eff says, unfolded one level: non-empty region, no single-branch decision *)
+Theorem C06_eff_content : forall q i leaf p s c0 c1, eff q (CN i leaf p s c0 c1) ->
+  ne q /\ is_feas s = true /\ (leaf = false -> c_exists c0 = true /\ c_exists c1 = true).
+Proof. exact eff_content. Qed.
+(* running the elimination again -- with any oracle, any tolerance -- changes nothing and solves no LP *)
+Theorem C06_idempotent : forall o tol o' tol' t, eff_root [] (fst (elim o tol t)) ->
+  elim o' tol' (fst (elim o tol t)) = (fst (elim o tol t), k0).
+Proof. exact elim_idem. Qed.
+(* more generally: any tree whose nodes below the root carry determined feasible states is a fixed point *)
+Theorem C06_fixed_point : forall o tol t isroot q st k, settled_kids t ->
+  elim_sub o tol isroot q st t k = (set_st st t, k).
+Proof. exact elim_sub_fixed. Qed.
+
+Example C06_nonvacuous :
+  eff_root [] (fst (elim ex_o 0 ex_t)) /\
+  elim ex_o 0 ex_t = (ex_r, {| k_lp := 4; k_mir := 0 |}) /\
+  elim ex_o 0 ex_r = (ex_r, k0).
+Proof. exact ex_c06. Qed.
+
+Print Assumptions C06_effective_partial.
+Print Assumptions C06_eff_content.
+Print Assumptions C06_idempotent.
+Print Assumptions C06_fixed_point.
+Print Assumptions C06_nonvacuous.
